@@ -41,7 +41,7 @@ ASSUMPTIONS = [
 @st.composite
 def case(draw):
     spec = draw(treegen.tree_spec())
-    lay = draw(layout.layout(spec, lies=True))
+    lay = draw(layout.layout(spec, lies=True, dup_manifest_entries=True))
     rendered = layout.render(lay)
     muts = draw(mutate.mutations(spec, lay, rendered, max_ops=4))
     vis = treegen.visible(spec)
@@ -83,7 +83,12 @@ def case(draw):
             'tags': lay['tags'], 'nfiles': nfiles,
             # verify the still unmutated tree first (state kept between two
             # verifications of the same paths must not leak)
-            'pre_verify': draw(st.integers(0, 3)) == 0}
+            'pre_verify': draw(st.integers(0, 3)) == 0,
+            # how the path is spelled on the command line
+            'keep_going': draw(st.booleans()),
+            'spelling': draw(st.sampled_from(
+                ['abs', 'abs', 'abs-slash', 'rel', 'rel-dot', 'rel-slash',
+                 'from-inside']))}
 
 
 def strat(tier):
@@ -126,8 +131,12 @@ def judge(model, oc, what):
                 f'matches its Manifests', sig='false-failure')
         return None
     if oc.kind == 'mismatch':
+        # (a path listed twice with conflicting values mismatches at least
+        # one of its entries: a mismatch is as good as the conflict error)
         allowed = (set(model.chain_broken) | set(model.offending)
-                   | set(model.soft) | set(model.dontcare))
+                   | set(model.soft) | set(model.dontcare)
+                   | set(model.incompatible)
+                   | set(model.incompatible_dontcare))
         p = os.path.normpath(oc.path)
         if not hard and not soft:
             return violation(
@@ -162,18 +171,7 @@ def judge(model, oc, what):
         f'{model.summary()!r}', sig='unexpected:' + buckets_sig(oc))
 
 
-def junk_manifest_above(root, subs):
-    import refmanifest as R
-    for sub in subs:
-        parts = sub.split('/') if sub else []
-        for i in range(1, len(parts) + 1):
-            p = os.path.join(root, *parts[:i], 'Manifest')
-            if os.path.isfile(p):
-                try:
-                    R.parse_strict(R.read_manifest_file(p))
-                except Exception:
-                    return True
-    return False
+junk_manifest_above = gem.junk_manifest_above
 
 
 def buckets_sig(oc):
@@ -204,15 +202,21 @@ def run_case(desc):
             v = judge(model, oc, f'assert_directory_verifies({sub!r}, '
                       f'last_mtime={desc["last_mtime"]})')
         else:
-            paths = [os.path.join(root, sub) if sub else root]
+            sp = desc.get('spelling', 'abs')
+            if desc['api'] == 'cli2' and sp == 'from-inside':
+                sp = 'rel'
+            arg, cwd = gem.spell(root, sub, sp)
+            paths = [arg]
+            classes.append('spelling:' + sp)
             models = [model]
             if desc['api'] == 'cli2':
                 sub2 = desc['subpath2']
                 if not os.path.isdir(os.path.join(root, sub2)):
                     return skip('subpath-vanished')
-                paths.append(os.path.join(root, sub2) if sub2 else root)
+                paths.append(gem.spell(root, sub2, sp)[0])
                 models.append(refverify.evaluate(root, 'Manifest', sub2))
-            oc, records, _ = gem.cli(['verify'] + paths)
+            kflag = ['-k'] if desc.get('keep_going') else []
+            oc, records, _ = gem.cli(['verify'] + kflag + paths, cwd=cwd)
             v = None
             if oc.kind == 'gemato' and junk_manifest_above(
                     root, [sub] + ([desc['subpath2']]
